@@ -21,7 +21,7 @@ def jobs(pid, tier, seed):
             for w in (0, 1, 2, 3) for u in (0, 1) if (l == 1 and (w < 2 or u == 0)) or (w in (1, 2) and u == 0 and (a or tier == "thorough"))]
     n = 2500 if tier == "quick" else 50000
     out += [{"kind": "random", "seed": seed * 1000003 + i} for i in range(n)]
-    out += [{"kind": "random", "seed": seed * 1000003 + 5000000 + i, "life": 1} for i in range(n // 2)]
+    out += [{"kind": "random", "seed": seed * 1000003 + 5000000 + i, "life": 1} for i in range(n)]
     return out
 
 
